@@ -389,6 +389,18 @@ def c03_order(m, run):
                 if out != want:
                     raise Violation('OT1', 'returned span %r, the half-open interval containing the parameter is %r' % (out, want))
             t.add((p, n, ranks, u), run1(m, fkey, [p, kv, n, Ord(u)], {}, post))
+            # a parameter a small but genuine amount (10^-6: above round-off and above the 10^-7 of the multiplicity count, far below the
+            # distance of two knots) below an interior knot lies in the span *before* that knot, the same amount above it in the span
+            # that starts there: no tolerance of the search may move it across the knot
+            if u in ranks and ranks[p] < u < ranks[n]:
+                for du in (-1e-6, 1e-6):
+                    wn = [i for i in range(p, n) if (ranks[i] < u if du < 0 else ranks[i] <= u) and (u <= ranks[i + 1] if du < 0 else u < ranks[i + 1])]
+                    wn = wn[0] if len(wn) == 1 else None
+
+                    def postn(sk, out, wn=wn, du=du):
+                        if out != wn:
+                            raise Violation('OT1', 'a parameter 1e-6 %s an interior knot: returned span %r, the half-open interval containing it is %r' % ('below' if du < 0 else 'above', out, wn))
+                    t.add((p, n, ranks, u, du), run1(m, fkey, [p, kv, n, Ord(u, du)], {}, postn))
         wantm = sum(1 for r in ranks if r == u)
 
         def postm(sk, out, wantm=wantm):
